@@ -13,13 +13,17 @@ struct Custom_Non_Std {
   int v;
 };
 
+struct Tok {
+  int v;
+};
+
 struct Shape {
   size_t stacks, scopes, call_params, first_params, saves;
   int depth;
   bool saves_enabled;
   bool same_as(const Shape &o) const {
     return stacks == o.stacks && scopes == o.scopes && call_params == o.call_params && first_params == o.first_params && depth == o.depth
-        && saves_enabled == o.saves_enabled;
+        && saves_enabled == o.saves_enabled && saves == o.saves;
   }
   std::string str() const {
     return "stacks=" + std::to_string(stacks) + " scopes=" + std::to_string(scopes) + " call_params=" + std::to_string(call_params) + " params0="
@@ -84,6 +88,11 @@ int main(int argc, char **argv) {
       auto chai = vh::make_engine(true);
       chai->add(fun(&cb), "cb");
       chai->add(fun([](int k) { g_run.last_mark = k; }), "mark");
+      // a call that needs a registered conversion: its converted argument is part of the saved-parameter state
+      chai->add(user_type<Tok>(), "Tok");
+      chai->add(type_conversion<int, Tok>([](const int &i) { return Tok{i}; }));
+      chai->add(fun([](const Tok &t) { return t.v + 1; }), "take_tok");
+      chai->add(fun([](const Tok &t, const std::function<int(int)> &f) { return f(t.v) + t.v; }), "tok_then");
       g_run = Run{};
       g_run.fault_at = fault_at;
       g_run.kind = kind;
